@@ -79,7 +79,23 @@ pub struct Live {
     pub expanded: bool,
 }
 
+thread_local! {
+    /// C14 only: attributes defaulted from the DTD (throw-away nodes without an order key, a recorded deviation) are part of
+    /// the documents but not of the handle pool: the histories edit the ordinary nodes around them
+    pub static SKIP_DEFAULTED: std::cell::Cell<bool> = const { std::cell::Cell::new(false) };
+}
+
+fn is_skipped(n: &XmlNode) -> bool {
+    if let XmlNode::Attribute(a) = n {
+        return SKIP_DEFAULTED.with(|c| c.get()) && !xml_dom::Attr::specified(a);
+    }
+    false
+}
+
 fn walk_into(n: &XmlNode, out: &mut Vec<XmlNode>) {
+    if is_skipped(n) {
+        return;
+    }
     out.push(n.clone());
     if let XmlNode::Element(e) = n {
         if let Some(attrs) = e.attributes() {
@@ -148,7 +164,7 @@ impl Live {
         let mut found: Vec<XmlNode> = vec![];
         let mut seen: std::collections::HashSet<(Kind, usize)> = std::collections::HashSet::new();
         fn visit(l: &Live, n: &XmlNode, found: &mut Vec<XmlNode>, seen: &mut std::collections::HashSet<(Kind, usize)>, depth: usize) {
-            if depth > 64 {
+            if depth > 64 || is_skipped(n) {
                 return;
             }
             let key = (kind_of(n), n.id());
@@ -1300,6 +1316,7 @@ impl Space for DomBfs {
 
 impl DomBfs {
     fn run_guarded(&self, idx: u64, sink: &mut Sink) {
+        SKIP_DEFAULTED.with(|c| c.set(self.prop == "C14"));
         let (doc, history) = &self.frontier[idx as usize];
         let mut live = match self.replay(*doc, history) {
             Some(l) => l,
